@@ -162,6 +162,9 @@ class BinningBase:
         rtol, atol : numpy tolerance parameters
         """
         if self.inconsecutive_allowed:
+            if rtol != 0.0 or atol != 0.0:
+                # Only the exact answer is cached: a tolerant one must not be handed to a stricter question
+                return is_consecutive(self.bins, rtol, atol)
             if self._consecutive is None:
                 if self._numpy_bins is not None:
                     self._consecutive = True
